@@ -458,3 +458,86 @@ Proof.
   unfold true_positions, iota. change (zlen (@nil value)) with 0 in Hg.
   replace (Z.to_nat (zlen bits)) with (length bits) by (unfold zlen; lia). exact Hg.
 Qed.
+
+(* ---------------------------------------------------------------- examples (the documented ones of ak.Array.__getitem__) *)
+Definition fv (z : Z) : value := VNum (DZ z).
+Definition tfl := TNum DFloat64.
+Definition tvar (t : ty) := TList None None t.
+(* ak.Array([1.1 .. 9.9])[[0, 1, None, None, 7, 8]]  (values x10) *)
+Example ex_missing_index :
+  getitem_adv_spec [] (AIdx 1 true (JInts [Some 0; Some 1; None; None; Some 7; Some (-1)])) [] tfl
+                   (map fv [11; 22; 33; 44; 55; 66; 77; 88; 99])
+  = Ok (VList [fv 11; fv 22; VNone; VNone; fv 88; fv 99]).
+Proof. vm_compute. reflexivity. Qed.
+(* ... [[False, False, False, False, True, None, True, None, True]] *)
+Example ex_missing_mask :
+  getitem_adv_spec [] (AIdx 1 true (JBools [Some false; Some false; Some false; Some false; Some true; None; Some true; None; Some true])) [] tfl
+                   (map fv [11; 22; 33; 44; 55; 66; 77; 88; 99])
+  = Ok (VList [fv 55; VNone; fv 77; VNone; fv 99]).
+Proof. vm_compute. reflexivity. Qed.
+(* array = [[[0.0, 1.1, 2.2], [], [3.3, 4.4]], [], [[5.5]]] *)
+Definition doc_array : list value :=
+  [VList [VList [fv 0; fv 11; fv 22]; VList []; VList [fv 33; fv 44]]; VList []; VList [VList [fv 55]]].
+(* array[[[1, 2], [], [0]]] *)
+Example ex_jagged :
+  getitem_adv_spec [] (AIdx 2 false (JLists [Some (JInts [Some 1; Some 2]); Some (JInts []); Some (JInts [Some 0])])) []
+                   (tvar (tvar tfl)) doc_array
+  = Ok (VList [VList [VList []; VList [fv 33; fv 44]]; VList []; VList [VList [fv 55]]]).
+Proof. vm_compute. reflexivity. Qed.
+(* array[[[[False, True, False], [], [True, False]], [], [[False]]]] *)
+Example ex_jagged_mask :
+  getitem_adv_spec [] (AIdx 3 false (JLists [Some (JLists [Some (JBools [Some false; Some true; Some false]); Some (JBools []);
+                                                             Some (JBools [Some true; Some false])]);
+                                             Some (JLists []); Some (JLists [Some (JBools [Some false])])])) []
+                   (tvar (tvar tfl)) doc_array
+  = Ok (VList [VList [VList [fv 11]; VList []; VList [fv 33]]; VList []; VList [VList []]]).
+Proof. vm_compute. reflexivity. Qed.
+(* array[np.argmax(array, axis=-1)] = array[[[2, None, 1], [], [0]]] *)
+Example ex_jagged_none :
+  getitem_adv_spec [] (AIdx 2 false (JLists [Some (JInts [Some 2; None; Some 1]); Some (JInts []); Some (JInts [Some 0])])) []
+                   (tvar (tvar tfl)) doc_array
+  = Ok (VList [VList [VList [fv 33; fv 44]; VNone; VList []]; VList []; VList [VList [fv 55]]]).
+Proof. vm_compute. reflexivity. Qed.
+(* array[[[[0, None, 2, None, None], None, [1]], None, [[0]]]] *)
+Example ex_jagged_none_above :
+  getitem_adv_spec [] (AIdx 3 true (JLists [Some (JLists [Some (JInts [Some 0; None; Some 2; None; None]); None; Some (JInts [Some 1])]);
+                                            None; Some (JLists [Some (JInts [Some 0])])])) []
+                   (tvar (tvar tfl)) doc_array
+  = Ok (VList [VList [VList [fv 0; VNone; fv 22; VNone; VNone]; VNone; VList [fv 44]]; VNone; VList [VList [fv 55]]]).
+Proof. vm_compute. reflexivity. Qed.
+(* an index out of range for the list it addresses / an index of the wrong length: an error *)
+Example ex_jagged_out_of_range :
+  getitem_adv_spec [] (AIdx 2 false (JLists [Some (JInts [Some 1; Some 3]); Some (JInts []); Some (JInts [Some 0])])) []
+                   (tvar (tvar tfl)) doc_array = Err EValue.
+Proof. vm_compute. reflexivity. Qed.
+Example ex_jagged_wrong_length :
+  getitem_adv_spec [] (AIdx 2 false (JLists [Some (JInts [Some 1]); Some (JInts [])])) [] (tvar (tvar tfl)) doc_array = Err EValue.
+Proof. vm_compute. reflexivity. Qed.
+(* NumPy: x[np.array([[0, 1], [2, 0]])] on lists, and below a leading range, followed by a range *)
+Example ex_nd_array :
+  getitem_adv_spec [] (ANd [2; 2] [0; 1; 2; 0]) [] (tvar tfl) [VList [fv 0; fv 11; fv 22]; VList []; VList [fv 33]]
+  = Ok (VList [VList [VList [fv 0; fv 11; fv 22]; VList []]; VList [VList [fv 33]; VList [fv 0; fv 11; fv 22]]]).
+Proof. vm_compute. reflexivity. Qed.
+Example ex_nd_array_below_range :
+  getitem_adv_spec [IRange None None None] (ANd [2; 2] [0; 1; 2; 0]) [] (TList (Some 3) None tfl)
+                   [VList [fv 0; fv 11; fv 22]; VList [fv 33; fv 44; fv 55]]
+  = Ok (VList [VList [VList [fv 0; fv 11]; VList [fv 22; fv 0]]; VList [VList [fv 33; fv 44]; VList [fv 55; fv 33]]]).
+Proof. vm_compute. reflexivity. Qed.
+Example ex_nd_array_rank3_then_range :
+  getitem_adv_spec [] (ANd [2; 1; 2] [0; 1; 1; 0]) [IRange None None (Some (-1))] (TList (Some 2) None tfl)
+                   [VList [fv 0; fv 11]; VList [fv 22; fv 33]]
+  = Ok (VList [VList [VList [VList [fv 11; fv 0]; VList [fv 33; fv 22]]]; VList [VList [VList [fv 33; fv 22]; VList [fv 11; fv 0]]]]).
+Proof. vm_compute. reflexivity. Qed.
+(* a 2 x 3 boolean array on a 2 x 3 array: the true entries in row-major order *)
+Example ex_boolean_array :
+  getitem_adv_spec [] (ABool [2; 3] [true; false; true; false; true; false]) [] (TList (Some 3) None tfl)
+                   [VList [fv 0; fv 11; fv 22]; VList [fv 33; fv 44; fv 55]]
+  = Ok (VList [fv 0; fv 22; fv 44]).
+Proof. vm_compute. reflexivity. Qed.
+(* a jagged index below a leading range, a field after a missing-value index *)
+Example ex_jagged_below_range_then_field :
+  getitem_adv_spec [IRange None None (Some (-1))] (AIdx 2 false (JLists [Some (JInts [Some 0]); Some (JInts [Some (-1); None])]))
+                   [IField [120]] (tvar (tvar (TRec (Some [[120]; [121]]) [tfl; tfl])))
+                   [VList [VList [VRec [([120], fv 1); ([121], fv 2)]]; VList [VRec [([120], fv 3); ([121], fv 4)]; VRec [([120], fv 5); ([121], fv 6)]]]]
+  = Ok (VList [VList [VList [fv 1]; VList [fv 5; VNone]]]).
+Proof. vm_compute. reflexivity. Qed.
